@@ -171,7 +171,9 @@ func ZZH_C03_entry_points() {
 	zz.Assert("C03.entry.unverified-ibtp-has-no-effect", post.InterchainCounter[to] == 0 && (via == 1 || w.unchanged(snap)))
 }
 
+// zz:also C15 C08
 func ZZH_C17_surface_governance() { zzSurface(zzGovAddr, zz.Choice("audit", 2) == 1) }
+// zz:also C02 C08
 func ZZH_C17_surface_interchain() { zzSurface(zzInterchainAddr, zz.Choice("audit", 2) == 1) }
 func ZZH_C17_surface_txmgr()      { zzSurface(zzTMAddr, false) }
 func ZZH_C17_surface_service()    { zzSurface(zzServiceAddr, zz.Choice("audit", 2) == 1) }
